@@ -47,6 +47,56 @@ _p('C15', runner=run_capi.runner_c15, driver_exe='kodama-capi-driver', trusted_e
 _p('C16', runner=run_capi.runner_c16, driver_exe='kodama-capi-driver', trusted_extra=[
     "C16: memory validity (no invalid access, no leak, no cross-thread interference) is OBSERVED by AddressSanitizer + LeakSanitizer (thorough: valgrind memcheck) on the generated scripts, not proved; the Rust code is not sanitizer-instrumented (its heap traffic goes through the intercepted malloc/free, all reads of returned storage are made by the instrumented C driver)",
 ])
+def go_method_map(REPO):
+    """{Go constant name: C enumerator name passed to the C API}, read from go-kodama/kodama.go and
+    go-kodama/kodama.h.  Understands the two shapes seen so far of `func (m Method) enum()`: a switch
+    `case MethodX: return C.kodama_method_y`, and a numeric cast `return C.kodama_method(m)` of the iota
+    constant.  Used only to SEARCH for a concrete failing call; the theorem side is Props/C17.lean."""
+    import re
+    go = open(os.path.join(REPO, 'go-kodama', 'kodama.go')).read()
+    go_nc = re.sub(r'//[^\n]*', '', go)
+    hdr = open(os.path.join(REPO, 'go-kodama', 'kodama.h')).read()
+    hdr = re.sub(r'/\*.*?\*/', '', hdr, flags=re.S)
+    m = re.search(r'typedef\s+enum\s+\w*\s*\{(.*?)\}\s*kodama_method\s*;', hdr, re.S)
+    enumerators, val = [], 0
+    for e in [x.strip() for x in m.group(1).split(',') if x.strip()]:
+        if '=' in e:
+            nm, v = [y.strip() for y in e.split('=')]
+            val = int(v, 0)
+        else:
+            nm = e
+        enumerators.append((nm, val))
+        val += 1
+    consts = {}
+    for blk in re.finditer(r'const\s*\((.*?)\n\)', go_nc, re.S):
+        if 'iota' not in blk.group(1) or 'Method' not in blk.group(1):
+            continue
+        i = 0
+        for line in blk.group(1).split('\n'):
+            w = line.split()
+            if not w:
+                continue
+            if re.match(r'^Method\w+$', w[0]):
+                consts[w[0]] = i
+            i += 1
+    fn = re.search(r'func\s*\(\s*(\w+)\s+Method\s*\)\s*enum\s*\(\s*\)\s*C\.kodama_method\s*\{(.*?)\n\}', go_nc, re.S)
+    recv, body = fn.group(1), fn.group(2)
+    out = {}
+    cases = re.findall(r'case\s+(Method\w+)\s*:\s*return\s+C\.(kodama_method_\w+)', body)
+    if cases:
+        for g, c in cases:
+            out[g] = c
+        return out
+    if re.search(r'return\s+C\.kodama_method\(\s*%s\s*\)' % recv, body):
+        byval = {}
+        for nm, v in enumerators:
+            byval.setdefault(v, nm)
+        for g, v in consts.items():
+            out[g] = byval.get(v, 'value %d (no enumerator)' % v)
+        return out
+    raise ValueError('enum() has a shape not understood')
+
+
 def runner_c17(pid, tier, seed, driver, BUILD, REPO):
     """C17 is decided entirely by theorems over translated data; the 'cases' are the rows of the
     generated tables (what the theorems quantify over)."""
@@ -104,6 +154,34 @@ def runner_c17(pid, tier, seed, driver, BUILD, REPO):
                     if k >= len(got) or k >= len(refl) or got[k] != refl[k]:
                         rep['failures'].append({'kind': 'oracle', 'what': 'enumerator %s (header %s) does not run the linkage method of the same name: result differs from Rust linkage(Method::%s)' % (nm, tag, nm.split('_')[-1].capitalize()),
                                                 'ops': scripts[k], 'impl': [got[k] if k < len(got) else 'no output'], 'model': [refl[k] if k < len(refl) else 'no output']})
+            # the Go layer (never compiled here): evaluate, from the SOURCE TEXT, which C enumerator
+            # value a Go caller's `MethodX` is turned into by `enum()` (a name-based switch, or a numeric
+            # cast of the iota constant), then run THAT enumerator of go-kodama/kodama.h through the C
+            # API and compare with Rust `linkage(.., Method::X)`
+            try:
+                gomap = go_method_map(REPO)
+            except Exception as e:  # noqa
+                gomap = None
+                rep['notes'].append('Go enum() could not be evaluated from the source text: %r' % (e,))
+            if gomap and exe2:
+                for k, nm in enumerate(names):
+                    x = nm.split('_')[-1]
+                    gname = 'Method' + x.capitalize()
+                    if gname not in gomap:
+                        rep['failures'].append({'kind': 'oracle', 'what': 'Go constant %s is missing or not handled by enum()' % gname, 'ops': [gname], 'impl': ['absent'], 'model': [nm]})
+                        continue
+                    cen = gomap[gname]          # C enumerator NAME the Go call passes
+                    rep['evaluations'] += 1
+                    rep['oracle_checked'] += 1
+                    if cen not in names:
+                        rep['failures'].append({'kind': 'oracle', 'what': 'Go %s is converted to %s, which is not an enumerator of go-kodama/kodama.h' % (gname, cen), 'ops': [gname], 'impl': [cen], 'model': [nm]})
+                        continue
+                    j = names.index(cen)
+                    out = subprocess.run([exe2], input=inp, capture_output=True, text=True).stdout
+                    got = [l for l in out.split('\n') if l.startswith('steps')]
+                    if j >= len(got) or got[j] != refl[k]:
+                        rep['failures'].append({'kind': 'oracle', 'what': 'a Go caller asking for %s makes the C API run %s: the result differs from Rust linkage(Method::%s)' % (gname, cen, x.capitalize()),
+                                                'ops': ['Go: kodama.Linkage64(matrix, 6, kodama.%s)  ==  C: ' % gname + scripts[j][0]], 'impl': [got[j] if j < len(got) else 'no output'], 'model': [refl[k]]})
     except Exception as e:  # noqa
         rep['notes'].append('behavioural enumerator cross-check could not run: %r' % (e,))
     if tier == 'thorough':
